@@ -190,7 +190,8 @@ func RecvOK[T any](ch <-chan T) (T, bool) {
 //
 //go:norace
 func WaitDone(ctx context.Context) {
-	c, ok := ctx.(*Ctx)
+	c := ctxOf(ctx)
+	ok := c != nil
 	if !ok || S == nil || S.aborting {
 		if S != nil && S.aborting {
 			return
